@@ -17,7 +17,9 @@ package diodeh
 //     called while the consumer is held inside the wrapped writer, producers go on writing
 //     (nothing, less than a ring, exactly a ring, several rings) while Close is in progress, then
 //     the wrapped writer is released and the producers stop: Close must return.  Nothing is
-//     demanded about the messages written after Close was called.
+//     demanded about the messages written after Close was called.  A second form has no gate: the
+//     wrapped writer is merely slow (5-50 ms per Write) and the producers write three times as
+//     fast as it absorbs, for three rings' worth of Writes (runCloseWhileSlow).
 
 import (
 	"fmt"
@@ -158,7 +160,7 @@ func bbConcurrentClosers(c *hlib.Ctx) {
 	var cfgs []ccCfg
 	n := 0
 	for _, poll := range []time.Duration{0, 2 * time.Millisecond} {
-		for _, closers := range []int{2, 3} {
+		for _, closers := range []int{2, 3, 8} {
 			for _, stagger := range []time.Duration{0, time.Millisecond, 15 * time.Millisecond, -1} {
 				for _, shape := range []struct {
 					ring, backlog int
@@ -203,9 +205,16 @@ type cwCfg struct {
 	producers int
 	after     int           // Writes made while Close is in progress and the consumer is held
 	lead      time.Duration // between the call of Close and the first of those Writes
+	sinkDelay time.Duration // > 0: the wrapped writer is not held but slow (this long per Write), see runCloseWhileSlow
 }
 
 func (x cwCfg) json() map[string]interface{} {
+	if x.sinkDelay > 0 {
+		return map[string]interface{}{"scenario": "close-while-consumer-busy-in-a-slow-writer-and-producers-writing", "poll": x.poll.String(), "ring": x.ring, "producers": x.producers,
+			"wrapped_writer_takes_per_write": x.sinkDelay.String(), "writes_while_close_in_progress": x.after, "pause_between_those_writes_per_producer": (x.sinkDelay / 3).String(),
+			"pause_between_close_call_and_those_writes": x.lead.String(),
+			"order": fmt.Sprintf("one message is written and the consumer is inside the wrapped writer's Write (which takes %v); %d more are written (they fit the ring); Close is called (it has that backlog to drain); the producers make their Writes, three per Write of the wrapped writer each, and stop; Close must return", x.sinkDelay, x.ring-1)}
+	}
 	return map[string]interface{}{"scenario": "close-while-consumer-stalled-and-producers-writing", "poll": x.poll.String(), "ring": x.ring, "producers": x.producers,
 		"writes_while_close_in_progress": x.after, "pause_between_close_call_and_those_writes": x.lead.String(),
 		"order": "one message is written and the consumer is held inside the wrapped writer's Write; Close is called (it cannot return yet); the producers make their Writes and stop; the wrapped writer is released; Close must return"}
@@ -266,6 +275,63 @@ func runCloseWhileStalled(x cwCfg) *hlib.Violation {
 	return nil
 }
 
+// runCloseWhileSlow: the variant without a gate.  The wrapped writer is alive but slow; Close is called while the
+// consumer works through a backlog, and the producers go on writing faster than the wrapped writer absorbs (so they
+// lap the ring, the consumer and whatever Close may have put into the ring) for a bounded number of Writes.  Once
+// they have stopped the ring holds at most `ring` messages, which the wrapped writer absorbs in ring x sinkDelay:
+// Close must have returned bbLimit after that.  Nothing is demanded about the messages.
+func runCloseWhileSlow(x cwCfg) *hlib.Violation {
+	cs := x.json()
+	sink := &slowSink{delay: x.sinkDelay}
+	var reported int64
+	dw := diode.NewWriter(sink, x.ring, x.poll, func(m int) { atomic.AddInt64(&reported, int64(m)) })
+	written := 0
+	busy := false
+	for try := 0; try < 25 && !busy; try++ {
+		dw.Write([]byte(fmt.Sprintf("{\"w\":\"h%d\"}\n", written)))
+		written++
+		for t := time.Now(); time.Since(t) < 200*time.Millisecond; {
+			if atomic.LoadInt64(&sink.begun) >= 1 {
+				busy = true
+				break
+			}
+			time.Sleep(50 * time.Microsecond)
+		}
+	}
+	if !busy {
+		within(func() { dw.Close() })
+		return &hlib.Violation{Key: "consumer-never-delivers", Monitor: "black-box close-while-busy", Desc: "25 Writes over 5 s into an idle diode, the wrapped writer was never called", Case: cs}
+	}
+	for k := 0; k < x.ring-1; k++ {
+		dw.Write([]byte(fmt.Sprintf("{\"w\":\"b%d\"}\n", k)))
+	}
+	closed := make(chan struct{})
+	go func() { dw.Close(); close(closed) }()
+	time.Sleep(x.lead)
+	var wg sync.WaitGroup
+	for p := 0; p < x.producers; p++ {
+		wg.Add(1)
+		go func(p int) {
+			defer wg.Done()
+			for k := p; k < x.after; k += x.producers {
+				dw.Write([]byte(fmt.Sprintf("{\"w\":\"%c%d\"}\n", 'p'+p, k)))
+				time.Sleep(x.sinkDelay / 3)
+			}
+		}(p)
+	}
+	wg.Wait() // bounded: x.after Writes, none of which waits for anything (C10's subject), and as many short sleeps
+	limit := bbLimit + time.Duration(x.ring+1)*x.sinkDelay
+	select {
+	case <-closed:
+	case <-time.After(limit):
+		return &hlib.Violation{Key: "close-never-returns-while-writer-busy", Monitor: "black-box close-while-busy",
+			Desc: fmt.Sprintf("Close was called while the consumer was working through %d messages into a wrapped writer that takes %v per Write; %d producer(s) then made %d Write(s) into the ring of %d (one every %v each) and stopped: Close did not return within %v after the last of them (the wrapped writer was called %d times, reported dropped %d)",
+				x.ring, x.sinkDelay, x.producers, x.after, x.ring, x.sinkDelay/3, limit, atomic.LoadInt64(&sink.begun), atomic.LoadInt64(&reported)),
+			Case: cs, Observed: map[string]interface{}{"wrapped_writer_calls": atomic.LoadInt64(&sink.begun), "reported_dropped": atomic.LoadInt64(&reported)}, Expected: "Close returns"}
+	}
+	return nil
+}
+
 func bbCloseWhileStalledAndWriting(c *hlib.Ctx) {
 	var cfgs []cwCfg
 	n := 0
@@ -283,24 +349,41 @@ func bbCloseWhileStalledAndWriting(c *hlib.Ctx) {
 			}
 		}
 	}
+	// the slow-writer variant: both modes x (ring, time per Write) x 1-2 producers, three rings' worth of Writes
+	slow := 0
+	for _, poll := range []time.Duration{0, 2 * time.Millisecond} {
+		for _, sh := range []struct {
+			ring  int
+			delay time.Duration
+		}{{2, 50 * time.Millisecond}, {4, 10 * time.Millisecond}, {8, 5 * time.Millisecond}} {
+			n++
+			slow++
+			cfgs = append(cfgs, cwCfg{poll: poll, ring: sh.ring, producers: 1 + n%2, after: 3*sh.ring + 1, lead: []time.Duration{0, 2 * time.Millisecond}[n%2], sinkDelay: sh.delay})
+		}
+	}
 	out := make([]*hlib.Violation, len(cfgs))
 	var wg sync.WaitGroup
 	for i := range cfgs {
 		wg.Add(1)
 		go func(i int) {
 			defer wg.Done()
-			out[i] = runCloseWhileStalled(cfgs[i])
+			if cfgs[i].sinkDelay > 0 {
+				out[i] = runCloseWhileSlow(cfgs[i])
+			} else {
+				out[i] = runCloseWhileStalled(cfgs[i])
+			}
 		}(i)
 	}
 	wg.Wait()
 	seen := map[string]int{}
 	for _, v := range out {
 		if v != nil {
-			if seen[v.Key] < 3 {
+			if seen[v.Key+v.Monitor] < 3 {
 				c.Violate(*v)
 			}
-			seen[v.Key]++
+			seen[v.Key+v.Monitor]++
 		}
 	}
-	c.Res.ExtraCoverage["blackbox_close_while_stalled_runs"] = len(cfgs)
+	c.Res.ExtraCoverage["blackbox_close_while_stalled_runs"] = len(cfgs) - slow
+	c.Res.ExtraCoverage["blackbox_close_while_busy_runs"] = slow
 }
